@@ -200,7 +200,8 @@ func init() {
 			extraAssume: []string{"timer expiry is driven with a real 1 ms transaction timeout and a 30 s watchdog on the release of the transaction slot (single active thread, no schedule enumeration here; interleavings are C16)",
 				"unmanaged device leaves removed by an aggregated list-entry delete are not required to come back (the property speaks of paths the transaction touched on behalf of intents)"}})
 	}
-	registerE1("C08", &e1Config{checker: C08Checker{}, depth: [2]int{2, 3}, frags: choiceFrags, multi: choiceMulti, initials: choiceInitials})
+	registerE1("C08", &e1Config{checker: C08Checker{}, depth: [2]int{2, 3}, frags: choiceFrags, multi: choiceMulti, initials: choiceInitials,
+		deep: &deepPhase{names: []string{"ca1", "cab", "cb1", "cpc"}, depth: [2]int{3, 4}, initials: func() []*Initial { return choiceInitials()[:1] }}})
 	registerE1("C09", &e1Config{checker: C09Checker{}, depth: [2]int{2, 3}, orphan: true, renderAll: true, probes: C09Probes, frags: smallFrags,
 		deep: &deepPhase{names: []string{"fa", "fa1", "fb", "fd"}, depth: [2]int{3, 4}, initials: func() []*Initial { return CoreInitials()[:1] }},
 		extraAssume: []string{"probe transitions (re-submissions) start from every state reached with fewer than depth_bound operations"}})
